@@ -255,6 +255,12 @@ def judge(case, obs, pid=PID):
                 v.append(("%s/tx-count:%s" % (pid, shape), "sender put %d packets on the air for %d frame(s)" % (len(own), nfrag)))
             if not txs:
                 continue
+        if key in case["relays"] and lvl == 4 and 4 in may_reach:
+            # not specified by the property (relaying is defined for levels 1..3): only the safety side is judged -
+            # it must not transmit to an address that any level listens on
+            if any(a in [level_addr(x) for x in range(5)] for a, _, _ in txs):
+                v.append(("%s/relay-wrong-address:%s" % (pid, shape), "level-4 relay %o re-broadcast to %s, the address of an existing level" % (key, txs[0][0].hex())))
+            continue
         if key not in relays or N.level_of(key) not in may_reach:
             v.append(("%s/unexpected-relay:%s" % (pid, shape), "node %o (level %d, relay %s) re-broadcast the multicast" % (key, lvl, "on" if key in relays else "off")))
             continue
@@ -299,13 +305,15 @@ def w_cases(cases, rep):
 def build_items(tier, seed):
     cases = []
     k = 0
-    relay_cfgs = [[]] + [[r] for r in TOPO if 1 <= N.level_of(r) <= 3] + [[r for r in TOPO if 1 <= N.level_of(r) <= 3]]
+    # (multicast_relay on a level-4 node: there is no next level - whatever it does, no node of another level may get the frame)
+    relay_cfgs = [[]] + [[r] for r in TOPO if 1 <= N.level_of(r) <= 3] + [[r for r in TOPO if 1 <= N.level_of(r) <= 3]] + [
+        [O("1111")], [r for r in TOPO if 1 <= N.level_of(r) <= 4]]
     timing = [(c, l) for c in range(4) for l in (0, 1, 2)]
     for src in SENDERS:
         for lvl in LEVELS:
             for ri, relays in enumerate(relay_cfgs):
                 for allow_off in (None, O("2"), O("12")):
-                    if allow_off is not None and (ri not in (0, 1, len(relay_cfgs) - 1) or allow_off == src):
+                    if allow_off is not None and (ri not in (0, 1, len(relay_cfgs) - 3) or allow_off == src):
                         continue  # multicast() on a node that itself has multicasting off is not specified
                     lens = LENGTHS
                     for mlen in lens:
